@@ -18,7 +18,13 @@ func makeGen(rnd *hx.Rand, version, prop string) genFunc {
 	locky := prop == "C20"
 	offsets := []string{"0", "1", "5", "10", "2^63", "max-1", "max"}
 	lengths := []string{"1", "2", "5", "10", "2^63", "max", "max", "0"}
+	var pending []string
 	return func(r *run) string {
+		if len(pending) > 0 {
+			op := pending[0]
+			pending = pending[1:]
+			return op
+		}
 		r.nextReq++
 		id := r.nextReq
 		// sorted views (deterministic)
@@ -57,6 +63,99 @@ func makeGen(rnd *hx.Rand, version, prop string) genFunc {
 		_ = lease
 		if len(confirmed) == 0 {
 			return fmt.Sprintf("reg %d %d", rnd.Intn(3), rnd.Intn(2))
+		}
+		// quiet period: for several lease times only the clock moves (30 s steps) and
+		// leases are kept alive by RENEW / an empty SEQUENCE; either one client that holds
+		// state goes silent while at least two others stay active (it must be reclaimed
+		// although others keep the server busy), or nobody does (nothing may be
+		// reclaimed: an open-owner that closed one of its files keeps the others and its
+		// locks). Afterwards other owners probe the locks that were held.
+		if (len(opens) > 0 || len(locks) > 0) && rnd.Chance(1, 40) {
+			var silent *clientRec
+			var active []*clientRec
+			if rnd.Chance(1, 2) && len(opens) > 0 {
+				silent = opens[rnd.Intn(len(opens))].c
+			}
+			for _, c := range confirmed {
+				if c != silent {
+					active = append(active, c)
+				}
+			}
+			if silent != nil {
+				// at least two active clients
+				for l := 0; len(active) < 2 && l < 3; l++ {
+					for v := 0; v < 2 && len(active) < 2; v++ {
+						if c := r.client(l, v); (c == nil || c.dead) && (silent == nil || l != silent.long) {
+							taken := false
+							for _, a := range active {
+								if a.long == l {
+									taken = true
+								}
+							}
+							if !taken {
+								pending = append(pending, fmt.Sprintf("reg %d %d", l, v))
+								active = append(active, &clientRec{long: l, ver: v})
+							}
+						}
+					}
+				}
+			} else if len(opens) > 0 {
+				// an open-owner with two open files and a lock on the first closes the second
+				s1 := opens[rnd.Intn(len(opens))]
+				other := (s1.leaf + 1) % numFiles
+				r.nextReq += 3
+				a, b, c := r.nextReq-2, r.nextReq-1, r.nextReq
+				_ = c
+				pending = append(pending, fmt.Sprintf("open %d %d %d %d 3 0 n %d 0", a, s1.c.long, s1.c.ver, s1.key, other))
+				if v40 {
+					pending = append(pending, fmt.Sprintf("oconf %d", a))
+				}
+				lo := -1
+				for cand := 0; cand < 3 && lo < 0; cand++ {
+					free := true
+					for _, l := range locks {
+						if l.c == s1.c && l.key == cand && l.leaf == s1.leaf && l.parent != s1 {
+							free = false // never one lock-owner through two open-owners (known finding)
+						}
+					}
+					if free {
+						lo = cand
+					}
+				}
+				if lo >= 0 {
+					pending = append(pending, fmt.Sprintf("lock %d %d %d 2 0 10", b, s1.req, lo))
+				}
+				pending = append(pending, fmt.Sprintf("close %d", a))
+			}
+			n := 6 + rnd.Intn(16)
+			for i := 0; i < n; i++ {
+				pending = append(pending, "tick 30")
+				for _, c := range active {
+					if rnd.Chance(1, 5) {
+						pending = append(pending, fmt.Sprintf("lockt %d %d %d %d 1 0 max", c.long, c.ver, rnd.Intn(3), rnd.Intn(numFiles)))
+					} else {
+						pending = append(pending, fmt.Sprintf("renew %d %d", c.long, c.ver))
+					}
+				}
+			}
+			// probes of the locks that were held, by other owners
+			for i, s := range locks {
+				if i >= 3 || len(active) == 0 {
+					break
+				}
+				c := active[rnd.Intn(len(active))]
+				pending = append(pending, fmt.Sprintf("lockt %d %d %d %d 2 0 max", c.long, c.ver, (s.key+1)%3, s.leaf))
+			}
+			if silent != nil {
+				r.out.flags["quiet-one-silent"] = true
+			} else {
+				r.out.flags["quiet-all-renew"] = true
+			}
+			if len(pending) > 0 {
+				op := pending[0]
+				pending = pending[1:]
+				return op
+			}
 		}
 		// 4.0: confirm freshly opened unconfirmed owners most of the time
 		if v40 {
